@@ -634,6 +634,11 @@ def _object_attr(draw, t, allow_absent):
     a = {'k': 'attr', 'label': None, 'count': None, 'code': None, 'units': None, 'values': None}
     if kind == 2:
         return a     # descriptor only: every characteristic from the template
+    if draw(ints(0, 23)) == 0:
+        # a long value list: the count needs a two byte UVARI (128 and more); one byte values from a pattern, no draws
+        n, seed = _pick(draw, [128, 129, 130, 200, 255, 256, 300]), draw(ints(0, 255))
+        a.update(count=n, code=_pick(draw, [15, 12]), values=[bytes([(seed + 3 * i) & 0xFF]) for i in range(n)])
+        return a
     flags = draw(ints(0, 255))
     if flags & 0x0F == 0 and t['label'] is not None:
         a['label'] = t['label']
